@@ -371,3 +371,44 @@ contract(IA + '::InterpAlgorithmFixed._bracket_dim', ['C15'],
          defs={'timeout_ms': 30000},
          canaries=[('cached index clamped from above instead of from below (seed S-C15-6)', ('last_index = max(last_index, 0)', 'last_index = min(last_index, len(grid) - 2)'), 'bounds'),
                    ('bisection keeps the wrong half', ('if x < grid[low]:\n                high = low\n            else:\n                last_index = low', 'if x < grid[low]:\n                last_index = low\n            else:\n                high = low'), 'inv-step')])
+
+
+# ---- InterpAlgorithm.bracket (general, recursive classes): the same hunt + bisection over self.grid ------------------
+def native_bracket_g(vals, np, om):
+    from pyvc.native_helpers import A, Fl
+    from openmdao.components.interp_util.interp_algorithm import InterpAlgorithm
+    obj = InterpAlgorithm.__new__(InterpAlgorithm)
+    obj.grid = A(vals['self']['grid'])
+    obj.last_index = int(vals['self']['last_index'])
+    return dict(self=obj, x=Fl(vals['x'])), dict(ng=len(obj.grid))
+
+
+def sample_bracket_g(rng):
+    ng = rng.choice([2, 3, 4, 6, 9])
+    g, xs = _inc_grid(rng, ng)
+    x = rng.choice([xs[0], xs[-1], xs[0] - 1, xs[-1] + 3, rng.choice(xs), rng.choice(xs) + 1, (xs[0] + xs[-1]) // 2])
+    return {'self': {'__obj__': 'InterpAlgorithm', 'id': 0, 'attrs': {'grid': g, 'last_index': rng.randrange(0, ng)}}, 'x': {'__frac__': [x, 8]}}
+
+
+GG = 'self.grid'
+INC_G = 'all(all(implies(a < b, self.grid[a] < self.grid[b]) for b in range(ng)) for a in range(ng))'
+LOWER_G = '(x > grid[last_index] or (last_index == 0 and x >= grid[0]))'
+contract(IA + '::InterpAlgorithm.bracket', ['C15'],
+         dict(self=Obj('InterpAlgorithm', grid=Arr('ng'), last_index=Int(0, None)), x=Real()),
+         requires=['ng >= 2', INC_G, 'self.last_index <= ng - 1'],
+         ensures=['iff(result[1] == -1, x < self.grid[0])', 'iff(result[1] == 1, x > self.grid[ng - 1])',
+                  'result[1] == -1 or result[1] == 0 or result[1] == 1',
+                  'implies(result[1] == -1, result[0] == 0)', 'implies(result[1] == 1, result[0] == ng - 1)',
+                  'implies(result[1] == 0, 0 <= result[0] and result[0] <= ng - 2 and self.grid[result[0]] <= x and x <= self.grid[result[0] + 1])',
+                  'self.last_index == old(self.last_index)'],
+         modifies=[], returns=TupleT(Int(), Int()),
+         invariants={
+             'loop0': ['0 <= last_index and last_index <= ng - 1', 'inc >= 1', 'last_index < high and high <= ng', 'highbound == ng - 1',
+                       'high == old(self.last_index) + 1 or (high <= ng - 1 and x <= grid[high])'],
+             'loop1': ['0 <= last_index and last_index <= high and high <= highbound', 'highbound == ng - 1', 'inc >= 1', LOWER_G,
+                       'last_index <= highbound - 1 or x > grid[highbound]'],
+             'loop2': ['0 <= last_index and last_index <= high and high <= highbound', 'highbound == ng - 1', 'x >= grid[last_index]', 'x <= grid[high]',
+                       'last_index <= highbound - 1']},
+         native=native_bracket_g, sampler=sample_bracket_g, name=IA + '::InterpAlgorithm.bracket',
+         defs={'timeout_ms': 30000},
+         canaries=[('a point on the first node is reported as below the grid', ('if x < grid[0]:\n                    return last_index, -1', 'if x <= grid[0]:\n                    return last_index, -1'), 'post')])
